@@ -277,9 +277,15 @@ func vfC07(w *vfWorld) {
 		sources = append(sources, &source{name: "bearer", b: w.NewBrowser("Bbearer", "192.0.2.8:1"), hdrs: [][2]string{{"Authorization", "Bearer " + tok}}, path: "/api/x",
 			sess: &vfC07Sess{claims: map[string][]string{"user": {u.Sub}, "email": {u.Email}, "groups": gs, "preferred_username": {u.PreferredUsername}, "access_token": {tok}, "id_token": {tok}}}})
 	}
-	if !preferEmailHt {
+	{
+		// an htpasswd user has a name and no address; with prefer-email-to-user the name stands in for the address as well
+		// (documented: "Will only use Username if Email is unavailable, eg. htaccess authentication")
+		hc := map[string][]string{"user": {"hank"}}
+		if preferEmailHt {
+			hc["email"] = []string{"hank"}
+		}
 		sources = append(sources, &source{name: "basic", b: w.NewBrowser("Bbasic", "192.0.2.9:1"), hdrs: [][2]string{{"Authorization", "Basic " + base64.StdEncoding.EncodeToString([]byte("hank:pw-hank"))}}, path: "/app/b",
-			sess: &vfC07Sess{claims: map[string][]string{"user": {"hank"}}}})
+			sess: &vfC07Sess{claims: hc}})
 	}
 	sources = append(sources, &source{name: "none(bypassed)", b: w.NewBrowser("Bnone", "192.0.2.10:1"), path: "/open/x", sess: nil})
 
